@@ -152,6 +152,12 @@ func (sc scenario) seriesOf(b blockSpec) map[string][]smpl {
 	return out
 }
 
+// pick draws a roughly uniform choice in [0,n): rapid's integer ranges are deliberately biased
+// towards small values, which would starve the later alternatives of a switch.
+func pick(rt *rapid.T, label string, n int) int {
+	return int(rapid.Uint64().Draw(rt, label) % uint64(n))
+}
+
 func genStream(rt *rapid.T, g int) []streamSeries {
 	n := rapid.IntRange(2, 5).Draw(rt, "series")
 	out := make([]streamSeries, 0, n)
@@ -169,9 +175,9 @@ func genStream(rt *rapid.T, g int) []streamSeries {
 
 // genWindows draws n distinct windows, mostly contiguous from 0 (which is what makes the planner act).
 func genWindows(rt *rapid.T, n int, label string) []int {
-	if rapid.IntRange(0, 9).Draw(rt, label+"Contig") < 7 {
+	if pick(rt, label+"Contig", 10) < 7 {
 		start := 0
-		if n < maxWindows && rapid.IntRange(0, 4).Draw(rt, label+"Shift") == 0 {
+		if n < maxWindows && pick(rt, label+"Shift", 5) == 1 {
 			start = rapid.IntRange(0, maxWindows-n).Draw(rt, label+"Start")
 		}
 		out := make([]int, n)
@@ -191,7 +197,7 @@ func windowBlock(rt *rapid.T, g int, replica string, w int, nSeries int) blockSp
 	lo := int64(w) * windowMs
 	hi := lo + windowMs - 1
 	b := blockSpec{Group: g, Replica: replica, Lo: lo, Hi: hi, DropLo: -1, DropHi: -1, SkipSeries: -1}
-	switch rapid.IntRange(0, 5).Draw(rt, "cut") {
+	switch pick(rt, "cut", 6) {
 	case 0: // late start
 		b.Lo += rapid.Int64Range(1, 400).Draw(rt, "late")
 	case 1: // early end
@@ -205,35 +211,50 @@ func windowBlock(rt *rapid.T, g int, replica string, w int, nSeries int) blockSp
 	return b
 }
 
-// genScenario draws a block set the compactor can act on. needWork biases towards inputs for which a
-// healthy compactor run mutates the bucket.
+// genScenario draws a block set; the shapes are biased towards inputs on which a healthy compactor
+// run mutates the bucket (otherwise there is no crash point / no destructive work to withhold).
 func genScenario(rt *rapid.T) scenario {
 	sc := scenario{}
-	sc.Mode = rapid.SampledFrom([]string{"aligned", "aligned", "replicas", "replicas", "overlap"}).Draw(rt, "mode")
-	if rapid.IntRange(0, 3).Draw(rt, "delayKind") == 0 {
+	sc.Mode = []string{"aligned", "replicas", "overlap", "replicas", "aligned"}[pick(rt, "mode", 5)]
+	if pick(rt, "delayKind", 4) == 1 {
 		sc.DeleteDelay = 2 * time.Hour
 	}
 	nGroups := 1
-	if rapid.IntRange(0, 3).Draw(rt, "twoGroups") == 0 {
+	if pick(rt, "twoGroups", 4) == 1 {
 		nGroups = 2
 	}
 	for g := 0; g < nGroups; g++ {
 		sc.Streams = append(sc.Streams, genStream(rt, g))
 	}
-	budget := rapid.IntRange(2, 6).Draw(rt, "blocks")
-	if rapid.IntRange(0, 19).Draw(rt, "single") == 0 {
+	budget := []int{6, 5, 4, 3, 2, 4, 5, 6}[pick(rt, "blocks", 8)]
+	if pick(rt, "single", 20) == 1 {
 		budget = 1
 	}
 	switch sc.Mode {
 	case "aligned":
 		// non-overlapping level-1 blocks; vertical compaction flag drawn (must not matter).
-		sc.Vertical = rapid.IntRange(0, 3).Draw(rt, "vflag") == 0
+		sc.Vertical = pick(rt, "vflag", 4) == 1
+		if budget > 1 && budget < 4 && pick(rt, "small", 4) != 1 {
+			budget = 4 // fewer than 4 aligned blocks of a group are never compacted
+		}
 		for g := 0; g < nGroups && budget > 0; g++ {
 			n := budget
 			if g == 0 && nGroups == 2 {
-				n = rapid.IntRange(1, budget).Draw(rt, "g0blocks")
+				n = rapid.IntRange(min(4, budget), budget).Draw(rt, "g0blocks")
 			}
-			for _, w := range genWindows(rt, n, "w") {
+			var ws []int
+			if n >= 4 && pick(rt, "planShape", 6) > 0 {
+				// the shape the planner acts on: >= 2 blocks inside the first 4000-ms range, one block
+				// after it, and one newest block (which the planner always leaves alone).
+				lowN := n - 2
+				low := rapid.Permutation([]int{0, 1, 2, 3}).Draw(rt, "low")[:lowN]
+				high := rapid.SampledFrom([][]int{{4, 5}, {4, 6}, {5, 6}, {4, 7}}).Draw(rt, "high")
+				ws = append(append(ws, low...), high...)
+				sort.Ints(ws)
+			} else {
+				ws = genWindows(rt, n, "w")
+			}
+			for _, w := range ws {
 				sc.Blocks = append(sc.Blocks, windowBlock(rt, g, "", w, len(sc.Streams[g])))
 			}
 			budget -= n
@@ -257,7 +278,7 @@ func genScenario(rt *rapid.T) scenario {
 			}
 			if n-na > 0 {
 				var wb []int
-				if rapid.IntRange(0, 3).Draw(rt, "sameWindows") > 0 {
+				if pick(rt, "sameWindows", 6) > 0 {
 					// replica b covers (a prefix / cyclic reuse of) the windows of replica a: overlap guaranteed
 					for i := 0; i < n-na; i++ {
 						wb = append(wb, wa[i%len(wa)]+(i/len(wa))*len(wa))
@@ -281,6 +302,15 @@ func genScenario(rt *rapid.T) scenario {
 			lo := rapid.Int64Range(0, 5*windowMs).Draw(rt, "lo")
 			if rapid.Bool().Draw(rt, "snap") {
 				lo = lo / 500 * 500
+			}
+			if i > 0 && pick(rt, "onPrev", 4) > 0 {
+				// start inside the previous block of the same group, if any: a certain overlap
+				for j := len(sc.Blocks) - 1; j >= 0; j-- {
+					if p := sc.Blocks[j]; p.Group == g {
+						lo = rapid.Int64Range(p.Lo, p.Hi).Draw(rt, "loIn")
+						break
+					}
+				}
 			}
 			hi := lo + rapid.Int64Range(300, 1500).Draw(rt, "len")
 			sc.Blocks = append(sc.Blocks, blockSpec{Group: g, Lo: lo, Hi: hi, DropLo: -1, DropHi: -1, SkipSeries: -1})
